@@ -156,12 +156,46 @@ class Parser:
         a = []
         while not self.at(")"):
             if self.at("|"):
-                raise Unsupported("closure argument")
+                a.append(self.closure())
+                if self.at(","):
+                    self.next()
+                continue
             a.append(self.expr())
             if self.at(","):
                 self.next()
         self.next()
         return a
+
+    def closure(self):
+        """|a, b| expr    or    |a| { let ..; tail }   (no type annotations, no captures by move)"""
+        self.expect("|")
+        params = []
+        while not self.at("|"):
+            tok = self.next()
+            if tok[0] != "id":
+                raise Unsupported("closure parameter pattern")
+            params.append(tok[1])
+            if self.at(","):
+                self.next()
+        self.next()
+        if self.at("{"):
+            # collect the tokens of the block and parse them as a body
+            depth = 0
+            start = self.i
+            while True:
+                tok = self.next()
+                if tok[0] == "eof":
+                    raise Unsupported("unterminated closure block")
+                if tok == ("p", "{"):
+                    depth += 1
+                elif tok == ("p", "}"):
+                    depth -= 1
+                    if depth == 0:
+                        break
+            inner = Parser(self.t[start + 1:self.i - 1])
+            stmts, tail = inner.block_items()
+            return ("closure", params, ("block", stmts, tail))
+        return ("closure", params, ("expr", self.expr()))
 
     def postfix(self, e):
         while True:
@@ -402,6 +436,22 @@ def ev(env, e, loc):
         if len(p) > 1 and p[1:] in env.consts:
             return env.consts[p[1:]]
         raise Unsupported("unknown name %s" % "::".join(p))
+    if k == "closure":
+        params, body = e[1], e[2]
+
+        def call(*args):
+            if len(args) != len(params):
+                raise Unsupported("closure arity")
+            l2 = dict(loc)
+            l2.update(zip(params, args))
+            if body[0] == "expr":
+                return ev(env, body[1], l2)
+            for _, pat, ex in body[1]:
+                bind(l2, pat, ev(env, ex, l2))
+            if body[2] is None:
+                raise Unsupported("closure block without tail expression")
+            return ev(env, body[2], l2)
+        return call
     if k == "tuple":
         return Tuple([ev(env, x, loc) for x in e[1]])
     if k == "struct":
@@ -538,6 +588,17 @@ def std_field_env(env, base_names=("Base", "Fp", "Fq", "Fp2", "F", "Self")):
         return r.value
 
     env.methods[("Opt", "unwrap")] = unwrap
+
+    def and_then(en, r, a):
+        f = a[0]
+        if not callable(f):
+            raise Unsupported("and_then with a non-closure argument")
+        res = f(r.value)
+        if not isinstance(res, Opt):
+            raise Unsupported("and_then closure does not return a CtOption")
+        return Opt(res.value, b_and(r.cond, res.cond))
+
+    env.methods[("Opt", "and_then")] = and_then
     for b in base_names:
         env.consts[(b, "ONE")] = sp.Integer(1)
         env.consts[(b, "ZERO")] = sp.Integer(0)
